@@ -132,6 +132,8 @@ pub fn text_mutants(seed: &[u8], fmt: Fmt, rng: &mut Rng, max_lines: usize, rand
         out.push((vec![splice(l.start, 0, b"\t\t\t\t\t")], m("indent", "+5")));
         if l.indent > 0 { out.push((vec![splice(l.start, 1, b"")], m("indent", "-1"))); out.push((vec![splice(l.start, l.indent, b"")], m("indent", "0"))); out.push((vec![splice(l.start, l.indent, &b"    ".repeat(l.indent))], m("indent", "spaces"))); }
         out.push((vec![splice(l.start, 0, b" ")], m("indent", "leading_space")));
+        out.push((vec![splice(l.start + l.indent, 0, "\u{3000}".as_bytes())], m("indent", "ideographic_space_after_tabs")));
+        out.push((vec![splice(l.start + l.indent, 0, "\u{a0}\u{2003}".as_bytes())], m("indent", "nbsp_em_space_after_tabs")));
         // keyword
         if let Some(t0) = l.toks.first() { for k in keywords { if &seed[t0.start..t0.end] != k.as_bytes() { out.push((vec![splice(t0.start, t0.end - t0.start, k.as_bytes())], m("keyword", k))); } } }
         // columns
